@@ -324,6 +324,9 @@ func (h *c17Hist) valid() bool {
 		default:
 			segStart = false
 		}
+		if op.Spell == "updown" && !dirs["sub"] {
+			return false // "sub/../p" needs the directory it walks through
+		}
 		parentOK := !strings.Contains(op.Path, "/") || dirs[op.Path[:strings.LastIndex(op.Path, "/")]]
 		switch op.Kind {
 		case "ext-mkdir":
@@ -957,13 +960,28 @@ func c17Report(r *Run, h *c17Hist, seed uint64, kind, detail string, cfPass bool
 			return
 		}
 	}
+	if lit := h.literalQuoteFeatures(); len(lit) > 0 && !cfPass {
+		// the history still fails once the literal-quoting features are neutralised:
+		// judge that residual failure, so that a listed finding cannot mask another defect
+		c := h
+		for _, f := range lit {
+			c = c.neutralise(f)
+		}
+		if bad, k2, d2 := fails(c); bad {
+			h, kind, detail = c, k2, d2
+		}
+	}
 	cur := h
 	// 1. fewer operations (any failure counts: the class is decided afterwards by the necessary features)
 	budget := 120
+	// candidates must fail in the same way (same failure kind): a subset that fails for
+	// another reason (e.g. a listed finding) must not hijack the minimisation
+	sameKind := func(c *c17Hist) bool {
+		f, k, _ := fails(c)
+		return f && k == kind
+	}
 	ops := ddmin(cur.Ops, func(cand []c17Op) bool {
-		c := &c17Hist{Population: cur.Population, Ops: cand}
-		f, _, _ := fails(c)
-		return f
+		return sameKind(&c17Hist{Population: cur.Population, Ops: cand})
 	}, &budget)
 	cur = &c17Hist{Population: h.Population, Ops: ops}
 	// 2. simplify renderings and origins
@@ -983,7 +1001,7 @@ func c17Report(r *Run, h *c17Hist, seed uint64, kind, detail string, cfPass bool
 		} {
 			c := &c17Hist{Population: cur.Population, Ops: append([]c17Op{}, cur.Ops...)}
 			simp(&c.Ops[i])
-			if f, _, _ := fails(c); f {
+			if sameKind(c) {
 				cur = c
 			}
 		}
@@ -991,7 +1009,7 @@ func c17Report(r *Run, h *c17Hist, seed uint64, kind, detail string, cfPass bool
 	// 3. counterfactual: neutralise every feature that is not needed for the failure
 	for _, f := range cur.features() {
 		c := cur.neutralise(f)
-		if bad, _, _ := fails(c); bad {
+		if sameKind(c) {
 			cur = c
 		}
 	}
